@@ -80,7 +80,7 @@ prop("C13",
      assumptions=DISP_ASSUME,
      residual="cell content/type/style preservation via text re-entry; column/row descriptor rebuild (planned unit delcols)")
 prop("C14",
-     units=["refshift", "dispsites", "colshift"],
+     units=["refshift", "dispsites", "colshift", "movecols"],
      level="proof",
      claim="lemma over the C12/C13 contracts: shift(shift(x,p,k),p,-k) == x for every coordinate when nothing is pushed off-grid, so formulas references, link keys and CF corners return to their values",
      assumptions=DISP_ASSUME,
